@@ -18,21 +18,23 @@ FORGERIES = [
     "digest_empty", "digest_1", "digest_6", "digest_11", "digest_zero12", "digest_13", "digest_random12",
     "other_password", "other_engine_localised", "other_user_signed", "other_user_field",
     "priv_cleared_old_digest", "priv_cleared_wrongkey_digest", "priv_cleared_no_auth",
+    "auth_cleared_cipher_malleated", "auth_cleared_cipher_malleated_digest_kept", "auth_cleared_plain", "auth_cleared_attacker_octets",
     "report_known_oid", "report_unknown_oid", "report_response_bindings", "report_authflag_baddigest",
-    "response_as_report_tag",
+    "report_empty_bindings", "response_as_report_tag",
 ]
 OPS = ["get", "multiget", "getnext", "set", "bulkget", "walk"]
 HASHES = ["md5", "sha1"]
 LEVELS = [1, 3]
 CHUNK = 8  # bytes of the response per flip plan
 MAXLEN = 416
-RULE = ("For every scenario (hash x level x operation x database; quick: 2x2x{get, walk}, thorough: 2x2x6 with two databases) "
+RULE = ("For every scenario (hash x level x operation x database; quick: 2x2x{get, walk, bulkget}, thorough: 2x2x6 with two databases) "
         "the exchange is first run un-attacked, then re-run from the identical state (determinism makes the twin exact) once "
         "per attacker transformation of the targeted authentic response: EVERY single-bit flip of the response (enumerated in "
         "chunks of %d octets) and %d structural forgeries built with the reference encoder and carrying different data "
         "(flags 0/1/3/4 mismatching the credentials with plaintext scoped PDU, digest empty/1/6/11/12-zero/13/random, signed "
         "under another password / right password localised to another engine / another user, privacy flag cleared with "
-        "plaintext, unauthenticated Reports with usmStats OIDs, unknown OIDs or response bindings). Oracle: exception, or "
+        "plaintext, authentication flag cleared (msgFlags 0x02) with the ciphertext malleated by one bit / plaintext / attacker "
+        "octets, unauthenticated Reports with usmStats OIDs, unknown OIDs, response bindings or no bindings). Oracle: exception, or "
         "exactly the authentic result; for Reports only an exception. Non-trivial: a twin in which the transformed datagram "
         "was delivered; distinct = distinct (scenario, transformation)." % (CHUNK, len(FORGERIES)))
 ASSUMPTIONS = [
@@ -49,7 +51,7 @@ BASE = (1, 3, 6, 1, 2, 1, 7)
 
 def _scenarios(tier: str) -> List[dict]:
     out = []
-    ops = ["get", "walk"] if tier == "quick" else OPS
+    ops = ["get", "walk", "bulkget"] if tier == "quick" else OPS
     dbs = [0] if tier == "quick" else [0, 1]
     for h in HASHES:
         for lv in LEVELS:
@@ -242,12 +244,26 @@ def _forge(name: str, plan: dict, raw: bytes, agent: Any) -> Optional[bytes]:
         if name == "priv_cleared_wrongkey_digest":
             return signed(1, wrong_key, scoped)
         return build(0, b"", scoped)
+    if name.startswith("auth_cleared"):
+        # privacy users: only the authentication flag is cleared (msgFlags 0x02, an invalid level an attacker can still send)
+        if level != 3 or msg["encrypted"] is None:
+            return None
+        if name.startswith("auth_cleared_cipher_malleated"):
+            # the attacker cannot decrypt, but a stream/CFB cipher is malleable: flip the last ciphertext bit
+            c = bytearray(msg["encrypted"])
+            c[-1] ^= 1
+            return build(2, sec["auth"] if name.endswith("digest_kept") else b"", B.enc_str(bytes(c)), sec["priv"])
+        if name == "auth_cleared_plain":
+            return build(2, b"", scoped, sec["priv"])
+        return build(2, b"", B.enc_str(scoped), sec["priv"])
     if name.startswith("report_") or name == "response_as_report_tag":
         stat = (1, 3, 6, 1, 6, 3, 15, 1, 1, 2, 0)
         if name == "report_known_oid":
             vbs = [(stat, ("c32", 7))]
         elif name == "report_unknown_oid":
             vbs = [((1, 3, 6, 1, 4, 1, 9999, 1, 0), ("c32", 7))]
+        elif name == "report_empty_bindings":
+            vbs = []
         else:
             vbs = [(o, FORGED_VALUE) for o, _ in authentic_pdu["vbs"]] or [(BASE + (9, 9), FORGED_VALUE)]
         rep = S.mkpdu(S.PDU_REPORT, authentic_pdu["rid"], vbs)
@@ -324,7 +340,7 @@ def execute(plan: dict) -> dict:
         if arg is None:
             probes["forgery_delivered"] = 1
             probes["report_forgery"] |= int(is_report)
-            probes["downgrade_forgery"] |= int(attack["name"].startswith(("flags", "priv_cleared")))
+            probes["downgrade_forgery"] |= int(attack["name"].startswith(("flags", "priv_cleared", "auth_cleared")))
         if t["exc"] is None:
             if is_report:
                 fail("report-accepted", "%s: an unauthenticated Report was returned as a result: %r" % (label, t["res"]))
